@@ -107,6 +107,11 @@ pub enum Party {
     /// mempool pre-validation; on success the returned pairings are fed into the cache
     PreValidate { bundle: u8, feed: bool },
     Evict { bundle: u8 },
+    /// a node pre-validating the block with the signature check deferred
+    /// (DONT_VALIDATE_SIGNATURE) but handed the shared cache all the same: parse_spends, or the
+    /// legacy run_block_generator. Its verdict is not judged; whatever it does to the cache must
+    /// not change anybody else's verdict.
+    DeferredSignature { bundle: u8, legacy: bool },
 }
 
 #[derive(Serialize, Deserialize, Clone, Debug)]
@@ -762,6 +767,12 @@ fn run_party(
                 }
             }
         }
+        Party::DeferredSignature { bundle, legacy } => {
+            let b = &built[*bundle as usize % built.len()];
+            let f = flags | ConsensusFlags::DONT_VALIDATE_SIGNATURE;
+            let _ = if *legacy { path_generator_legacy(b, Some(cache), k, f) } else { path_parse_spends(b, Some(cache), k, f) };
+            PartyResult::Unit
+        }
         Party::Evict { bundle } => {
             let i = *bundle as usize % built.len();
             let items: Vec<(PublicKey, Vec<u8>)> = truths[i]
@@ -784,6 +795,7 @@ fn party_bundle(p: &Party) -> usize {
         | Party::RunGenerator { bundle }
         | Party::RunGeneratorLegacy { bundle }
         | Party::PreValidate { bundle, .. }
+        | Party::DeferredSignature { bundle, .. }
         | Party::Evict { bundle } => *bundle as usize,
     }
 }
@@ -795,6 +807,7 @@ fn party_name(p: &Party) -> &'static str {
         Party::RunGeneratorLegacy { .. } => "run_block_generator",
         Party::PreValidate { .. } => "validate_clvm_and_signature",
         Party::Evict { .. } => "evict",
+        Party::DeferredSignature { .. } => "deferred_signature_pass",
     }
 }
 
@@ -1256,7 +1269,8 @@ fn gen_bundle(rng: &mut Rng, parent_counter: &mut u64, tamper_pct: u64, d: &[[u8
 
 fn gen_party(rng: &mut Rng, nbundles: usize) -> Party {
     let bundle = rng.usize_below(nbundles) as u8;
-    match rng.below(10) {
+    match rng.below(11) {
+        10 => Party::DeferredSignature { bundle, legacy: rng.chance(1, 2) },
         0..=2 => Party::ParseSpends { bundle },
         3 | 4 => Party::RunGenerator { bundle },
         5 => Party::RunGeneratorLegacy { bundle },
